@@ -252,6 +252,10 @@ def _parse_npath(npath: str) -> list[_NPathSegment]:
         if ch == ".":
             finalize_segment()
             continue
+        if quoted_segment:
+            raise ValueError(
+                "Quoted NPath segments must end at the segment boundary"
+            )
         if ch == '"':
             if buffer:
                 raise ValueError(
